@@ -37,6 +37,7 @@ GLUE = [
 ]
 
 PROP = {
+    "max_jobs": 8,  # parallel CBMC jobs (memory profile of these harnesses)
     "claim": "each lax entry point returns the prefix, payload range, incomplete flag, length source and stop error that "
              "the reference decoder in lax mode computes, fails only when the first header is undecodable, and equals "
              "its strict sibling whenever that accepts; the strict/lax relation for whole packets follows from "
